@@ -524,6 +524,43 @@ fn reference_djb(bytes: &[u8]) -> u32 {
     h
 }
 
+/// Simple case folding (Unicode CaseFolding.txt, statuses C and S) at points chosen across the table: capital letters of
+/// several scripts, the letters whose folding is not their lowercase form (micro sign, long s, final sigma, Greek symbol
+/// variants, Kelvin/Angstrom/Ohm signs, Cherokee small letters, capital sharp s, titlecase digraphs) and letters that have
+/// only a full folding and therefore stay as they are; the dotted capital I and the dotless small i fold to 'i'
+/// (DWARF 5 section 6.1.1.4.5 adds this to the simple folding).
+const FOLD_PAIRS: [(u32, u32); 72] = [
+    (0x41, 0x61), (0x5a, 0x7a), (0x61, 0x61), (0x7a, 0x7a), (0x30, 0x30), (0x5f, 0x5f),
+    (0xb5, 0x3bc), (0xc0, 0xe0), (0xd6, 0xf6), (0xd7, 0xd7), (0xd8, 0xf8), (0xde, 0xfe), (0xdf, 0xdf), (0xe0, 0xe0), (0xff, 0xff),
+    (0x100, 0x101), (0x12e, 0x12f), (0x130, 0x69), (0x131, 0x69), (0x132, 0x133), (0x139, 0x13a), (0x149, 0x149), (0x178, 0xff), (0x179, 0x17a), (0x17f, 0x73),
+    (0x181, 0x253), (0x1c4, 0x1c6), (0x1c5, 0x1c6), (0x1c6, 0x1c6), (0x1f0, 0x1f0),
+    (0x345, 0x3b9), (0x370, 0x371), (0x386, 0x3ac), (0x391, 0x3b1), (0x3a9, 0x3c9), (0x3c2, 0x3c3), (0x3c3, 0x3c3), (0x3cf, 0x3d7), (0x3d0, 0x3b2), (0x3d1, 0x3b8), (0x3d5, 0x3c6), (0x3d6, 0x3c0),
+    (0x3f0, 0x3ba), (0x3f1, 0x3c1), (0x3f4, 0x3b8), (0x3f5, 0x3b5),
+    (0x400, 0x450), (0x410, 0x430), (0x42f, 0x44f), (0x430, 0x430), (0x531, 0x561), (0x556, 0x586), (0x587, 0x587),
+    (0x10a0, 0x2d00), (0x13f8, 0x13f0), (0x1c80, 0x432), (0x1e9b, 0x1e61), (0x1e9e, 0xdf), (0x1f88, 0x1f80), (0x1fbe, 0x3b9),
+    (0x2126, 0x3c9), (0x212a, 0x6b), (0x212b, 0xe5), (0x2160, 0x2170), (0x24b6, 0x24d0), (0x2c00, 0x2c30), (0xa640, 0xa641), (0xab70, 0x13a0),
+    (0xff21, 0xff41), (0x10400, 0x10428), (0x1e900, 0x1e922), (0x4e2d, 0x4e2d),
+];
+
+/// The hash of a name is the DJB hash of its simple-case-folded UTF-8 bytes.
+fn check_case_folding(cx: &mut Ctx) -> R {
+    cx.label("case folding table");
+    for (c, f) in FOLD_PAIRS {
+        let (Some(c), Some(f)) = (char::from_u32(c), char::from_u32(f)) else { fail!("c17/harness/fold-table", "{:#x}", c) };
+        for (pre, post) in [("", ""), ("x", "y"), ("Ab_", "Z9")] {
+            let name = format!("{}{}{}", pre, c, post);
+            let folded = format!("{}{}{}", pre, f, post);
+            ensure_eq!(gimli::case_folding_djb_hash(&name), reference_djb(folded.as_bytes()), "c17/names/case-folding", "name {:?} (U+{:04X}) must hash like {:?} (U+{:04X})", name, c as u32, folded, f as u32);
+        }
+    }
+    // and a name mixing several of them
+    let name: String = FOLD_PAIRS.iter().filter_map(|p| char::from_u32(p.0)).collect();
+    let folded: String = FOLD_PAIRS.iter().filter_map(|p| char::from_u32(p.1)).collect();
+    ensure_eq!(gimli::case_folding_djb_hash(&name), reference_djb(folded.as_bytes()), "c17/names/case-folding", "all table characters in one name");
+    cx.nt();
+    Ok(())
+}
+
 fn form_len(form: u16, v: u64) -> usize {
     match form {
         0x0b | 0x11 | 0x0c => 1,
@@ -1122,12 +1159,12 @@ impl Prop for C17 {
         "C17"
     }
     fn rule(&self) -> &'static str {
-        "(a) generated .debug_cu_index and .debug_tu_index pairs (versions 2 and 5, every non-empty subset and rotation of the version's section-kind columns, 0-6 units, slot counts the smallest power of two above the unit count or twice that - i.e. up to full-minus-one - and 0, keys that share the primary hash or both hashes with an earlier key) placed by the format's open-addressing rule, with per-unit contributions appended to shared package sections: find(key) = model row for every present key and None for 12 absent keys incl. ones that walk occupied chains, sections(row) = the model's (section, offset, size) list, rows 0 and count+1 are errors, and DwarfPackage::find_cu/find_tu/cu_sections/tu_sections return exactly the unit's byte ranges of every section kind (location list sections via lookup_offset_id), the package's string section and the parent's .debug_addr/.debug_ranges; keys of one index are absent from the other; (b) .debug_aranges with 1-3 sets x 32/64-bit x address size 1/2/4/8 with header padding, interior (0,0) tuples, zero-address and tombstone tuples, with and without terminator: headers and entries (cooked and raw) equal the model; (c) .debug_pubnames/.debug_pubtypes with 1-3 sets in both formats: exactly the (unit, die offset, name) triples; (d) .debug_str_offsets / .debug_addr lookups at generated bases for both formats / four address sizes = table[base + index], past-the-end is an error; (e) generated .debug_names indexes (both formats, 1-3 CUs, 0-2 local and foreign type units, bucket counts 0/1/2/3/5/8, 0-8 names with genuine hash collisions, 1-4 abbreviations over every legal (index, form) pairing incl. parent by ref4 or flag_present, 1-3 entries per name, optional augmentation string and a leading empty index): header fields, unit tables, names(), string offsets and strings, every entry's offset/code/tag/attributes and the compile_unit/type_unit/die_offset/parent/type_hash accessors, name_entry(offset), find_by_bucket for every bucket and find_by_hash for every present hash plus same-bucket and random absent hashes all equal the model; case_folding_djb_hash equals a reference DJB hash on ASCII; (f) Dwarf::load, DwarfSections::load/borrow, load_sup and DwarfPackageSections::load with a loader that returns a buffer tagged with the requested section: every field holds its own section's buffer, lookup_offset_id attributes every buffer to its section, Section::id/section_name/dwo_name agree. Non-trivial = an index with a collision chain and an absent key probing an occupied slot, a 64-bit or null-tuple aranges set, a 64-bit name set; distinct by choice string."
+        "(a) generated .debug_cu_index and .debug_tu_index pairs (versions 2 and 5, every non-empty subset and rotation of the version's section-kind columns, 0-6 units, slot counts the smallest power of two above the unit count or twice that - i.e. up to full-minus-one - and 0, keys that share the primary hash or both hashes with an earlier key) placed by the format's open-addressing rule, with per-unit contributions appended to shared package sections: find(key) = model row for every present key and None for 12 absent keys incl. ones that walk occupied chains, sections(row) = the model's (section, offset, size) list, rows 0 and count+1 are errors, and DwarfPackage::find_cu/find_tu/cu_sections/tu_sections return exactly the unit's byte ranges of every section kind (location list sections via lookup_offset_id), the package's string section and the parent's .debug_addr/.debug_ranges; keys of one index are absent from the other; (b) .debug_aranges with 1-3 sets x 32/64-bit x address size 1/2/4/8 with header padding, interior (0,0) tuples, zero-address and tombstone tuples, with and without terminator: headers and entries (cooked and raw) equal the model; (c) .debug_pubnames/.debug_pubtypes with 1-3 sets in both formats: exactly the (unit, die offset, name) triples; (d) .debug_str_offsets / .debug_addr lookups at generated bases for both formats / four address sizes = table[base + index], past-the-end is an error; (e) generated .debug_names indexes (both formats, 1-3 CUs, 0-2 local and foreign type units, bucket counts 0/1/2/3/5/8, 0-8 names with genuine hash collisions, 1-4 abbreviations over every legal (index, form) pairing incl. parent by ref4 or flag_present, 1-3 entries per name, optional augmentation string and a leading empty index): header fields, unit tables, names(), string offsets and strings, every entry's offset/code/tag/attributes and the compile_unit/type_unit/die_offset/parent/type_hash accessors, name_entry(offset), find_by_bucket for every bucket and find_by_hash for every present hash plus same-bucket and random absent hashes all equal the model; case_folding_djb_hash equals a reference DJB hash on ASCII, and on non-ASCII names through a table of 72 simple-case-folding pairs across scripts (incl. letters whose folding is not their lowercase form and letters that only have a full or Turkic folding); (f) Dwarf::load, DwarfSections::load/borrow, load_sup and DwarfPackageSections::load with a loader that returns a buffer tagged with the requested section: every field holds its own section's buffer, lookup_offset_id attributes every buffer to its section, Section::id/section_name/dwo_name agree. Non-trivial = an index with a collision chain and an absent key probing an occupied slot, a 64-bit or null-tuple aranges set, a 64-bit name set; distinct by choice string."
     }
     fn assumptions(&self) -> Vec<&'static str> {
         vec![
             "the package index layout and probing rule follow the DWARF 5 specification section 7.3.5 (and the GNU v2 format) as implemented by the harness's own encoder",
-            ".debug_names layout follows DWARF 5 section 6.1.1.4 as implemented by the harness's own encoder; the hash function is compared with a reference DJB hash for ASCII names only",
+            ".debug_names layout follows DWARF 5 section 6.1.1.4 as implemented by the harness's own encoder; the hash function is compared with a reference DJB hash of the simple-case-folded name (ASCII, plus a table of folding pairs transcribed from Unicode's CaseFolding.txt)",
         ]
     }
     fn max_len(&self) -> usize {
@@ -1149,7 +1186,10 @@ impl Prop for C17 {
             6 => check_names(ch, cx),
             7 => check_pubnames(ch, cx),
             8 => check_tables(ch, cx),
-            _ => check_wiring(cx),
+            _ => {
+                check_wiring(cx)?;
+                check_case_folding(cx)
+            }
         }
     }
 }
